@@ -40,6 +40,7 @@ fn main() {
         "C09" => dispatch(props::c09::C09, &args),
         "C10" => dispatch(props::c10::C10, &args),
         "C11" => dispatch(props::c11::C11, &args),
+        "C12" => dispatch(props::c12::C12, &args),
         "C13" => dispatch(props::c13::C13, &args),
         "C14" => dispatch(props::c14::C14, &args),
         "C15" => dispatch(props::c15::C15, &args),
